@@ -1,5 +1,5 @@
 (* C10 -- Handling the same ClusterCIDR again has no additional effect. *)
-From NIPAM Require Import Sys Alloc_proofs Inv_proofs World_proofs Path_proofs Uniq_proofs Default_proofs.
+From NIPAM Require Import Sys Alloc_proofs Inv_proofs World_proofs Path_proofs Uniq_proofs Default_proofs Create_proofs.
 Open Scope N_scope.
 
 (* mapping is idempotent per name: whenever an entry of that name is already filed under the selector,
@@ -107,3 +107,14 @@ Example C10_default_clustercidr_nonvacuous :
   map (fun o => (o_name o, o_v4 o, o_hb o, o_fins o)) (w_ccs (run po0 lab0 init_world ops)) =
     [(default_name, FOk (mkCidr V4 167772160 24), 4%Z, [finalizer])].
 Proof. vm_compute. reflexivity. Qed.
+
+(* "Create is only used for creating the default ClusterCIDR": every ClusterCIDR object the API holds, the store shows, a
+   notification carries or a worker fetched has a non-empty resource version (an invariant of every history), so in every step
+   of every history the only object the controller sends with Create is the one named default-cluster-cidr, and only while
+   it starts up -- handling any listed or notified object again never creates a second API object *)
+Theorem C10_only_the_default_clustercidr_is_ever_created :
+  forall po lab ops o o' uo,
+  In (FxCreateCC o' uo) (ob_fx (snd (step po lab (run po lab init_world ops) o))) ->
+  o_name o' = default_name /\ exists s1 s2 outs dp, o = Construct s1 s2 outs dp.
+Proof. exact only_the_default_clustercidr_is_created. Qed.
+Print Assumptions C10_only_the_default_clustercidr_is_ever_created.
